@@ -278,7 +278,7 @@ func runProperty(g *Gen, prop, tier, out string, cfg SolverCfg, t0 time.Time) in
 	// baseline: every expected obligation must have been regenerated
 	for _, n := range baseline {
 		if !seen[baselineName(n)] {
-			ob := &Obligation{Unit: n[:strings.Index(n+"/", "/")], Name: n[strings.Index(n+"/", "/")+1:], Kind: "baseline", Clause: "obligation listed in baseline/" + prop + ".txt is generated again", Result: "missing"}
+			ob := &Obligation{Unit: n[:unitSep(n)], Name: n[min(unitSep(n)+1, len(n)):], Kind: "baseline", Clause: "obligation listed in baseline/" + prop + ".txt is generated again", Result: "missing"}
 			found := false
 			for _, v := range viols {
 				if v.ob.Kind == "unit" && v.ob.Unit == ob.Unit {
@@ -347,8 +347,16 @@ func runProperty(g *Gen, prop, tier, out string, cfg SolverCfg, t0 time.Time) in
 		// a committed witness for this obligation (a concrete failing input found earlier and kept
 		// under /verif/witness) is replayed on the current tree
 		if suffix != "" && v.unit != nil && v.unit.ct != nil {
-			wf := filepath.Join(cfgDir, "witness", mangle(full)+"_test.go")
-			if _, err := os.Stat(wf); err == nil {
+			wfs := []string{filepath.Join(cfgDir, "witness", mangle(full)+"_test.go")}
+			if ob.Kind == "unit" || ob.Kind == "baseline" {
+				// the unit as a whole is undecided: every committed witness of that unit is tried
+				more, _ := filepath.Glob(filepath.Join(cfgDir, "witness", mangle(ob.Unit)+"_*_test.go"))
+				wfs = append(wfs, more...)
+			}
+			for _, wf := range wfs {
+				if _, err := os.Stat(wf); err != nil || suffix == "" {
+					continue
+				}
 				outp, ran := runReplayTest(g.repo, v.unit.ct.Pkg, wf)
 				rr := ReplayResult{Status: "not-reproduced", TestFile: wf, Output: trunc2(outp, 6000), Reason: "committed witness"}
 				if ran && (strings.Contains(outp, "REPLAY the call panicked") || strings.Contains(outp, "REPLAY clause violated")) {
@@ -487,8 +495,8 @@ func baselineName(full string) string {
 }
 
 func baselineKind(full string) bool {
-	i := strings.Index(full, "/")
-	if i < 0 {
+	i := unitSep(full)
+	if i >= len(full) {
 		return false
 	}
 	n := full[i+1:]
@@ -499,4 +507,18 @@ func baselineKind(full string) bool {
 		return true // property-carrying anchored assert (proof hints are labelled lemma-*)
 	}
 	return strings.HasPrefix(n, "ensures#") || (strings.HasPrefix(n, "loop") && strings.Contains(n, "/inv-") && !strings.Contains(n, "#auto"))
+}
+
+// unitSep returns the index of the "/" that separates the unit name from the obligation name
+// in "pkg/path.Unit/obligation" (the package part may itself contain slashes): the first "/"
+// after the first ".". It returns len(full) when there is none.
+func unitSep(full string) int {
+	d := strings.Index(full, ".")
+	if d < 0 {
+		d = 0
+	}
+	if i := strings.Index(full[d:], "/"); i >= 0 {
+		return d + i
+	}
+	return len(full)
 }
